@@ -10,6 +10,7 @@
 import Sq.Dec
 import SqLemmas.DivLemmas
 import SqLemmas.FixLemmas
+import SqLemmas.QuantLemmas
 import Mathlib.Tactic.FieldSimp
 import Mathlib.Tactic.Ring
 import Mathlib.Tactic.Linarith
@@ -261,4 +262,60 @@ theorem cmp_toRat (a b : Dec) :
   · rw [beq_iff_eq, Int.compare_eq_lt]
   · rw [beq_iff_eq, Int.compare_eq_eq]
   · rw [bne_iff_ne, ne_eq, Int.compare_eq_gt]; omega
+
+/-- **half-even rescaling in ℚ**: the result has exactly the exponent asked for, differs from the argument by at most
+    half a unit of that place, and is the argument itself when no digit has to go -/
+theorem rescale_half_ulp (a : Dec) (e : Int) :
+    |(rescale a e .halfEven).toRat - a.toRat| ≤ (1 / 2) * 10 ^ e ∧ (e ≤ a.exp → (rescale a e .halfEven).toRat = a.toRat) := by
+  obtain ⟨hs, he, hc⟩ := rescale_cases a e
+  generalize rescale a e .halfEven = r at hs he hc
+  rcases hc with ⟨hz, hrz⟩ | ⟨_, hge, hco⟩ | ⟨_, hlt, hco⟩
+  · rw [toRat_zero a hz, toRat_zero r hrz]
+    refine ⟨?_, fun _ => rfl⟩
+    simp; positivity
+  · have hexp : a.exp = e + ((a.exp - e).toNat : Nat) := by omega
+    have heq : r.toRat = a.toRat := by
+      unfold toRat
+      rw [hs, he, hco]
+      conv_rhs => rw [hexp, zpow_add_nat]
+      push_cast; ring
+    refine ⟨?_, fun _ => heq⟩
+    rw [heq]; simp; positivity
+  · have hexp : e = a.exp + ((e - a.exp).toNat : Nat) := by omega
+    refine ⟨?_, fun hle => absurd hle (by omega)⟩
+    generalize hj : (e - a.exp).toNat = j at hexp hco
+    obtain ⟨⟨h1, h2⟩, _⟩ := roundDiv_nearest a.neg a.coeff j
+    rw [← hco] at h1 h2
+    unfold toRat
+    rw [hs, he]
+    conv_lhs => rw [hexp, zpow_add_nat]
+    conv_rhs => rw [hexp, zpow_add_nat]
+    have e1 : sgn a.neg * (r.coeff : ℚ) * (10 ^ j * 10 ^ a.exp) - sgn a.neg * (a.coeff : ℚ) * 10 ^ a.exp
+        = sgn a.neg * (((r.coeff : ℚ) * 10 ^ j - a.coeff) * 10 ^ a.exp) := by ring
+    rw [e1, abs_mul, sgn_abs, one_mul, abs_mul, abs_of_pos (zpow10_pos a.exp)]
+    have hq1 : (2 : ℚ) * a.coeff ≤ 2 * (r.coeff * 10 ^ j) + 10 ^ j := by exact_mod_cast h1
+    have hq2 : (2 : ℚ) * (r.coeff * 10 ^ j) ≤ 2 * a.coeff + 10 ^ j := by exact_mod_cast h2
+    have : |(r.coeff : ℚ) * 10 ^ j - a.coeff| ≤ (1 / 2) * 10 ^ j := by
+      rw [abs_le]; constructor <;> linarith
+    calc |(r.coeff : ℚ) * 10 ^ j - a.coeff| * 10 ^ a.exp ≤ ((1 / 2) * 10 ^ j) * 10 ^ a.exp :=
+          mul_le_mul_of_nonneg_right this (le_of_lt (zpow10_pos _))
+      _ = 1 / 2 * (10 ^ j * 10 ^ a.exp) := by ring
+
+/-- **rounding to a number of places in ℚ** (`round(x, n)` is `quantize x (-n)`) -/
+theorem quantize_half_ulp (a r : Dec) (e : Int) (h : quantize a e = .ok r) :
+    r.exp = e ∧ |r.toRat - a.toRat| ≤ (1 / 2) * 10 ^ e ∧ (e ≤ a.exp → r.toRat = a.toRat) := by
+  rw [quantize_is_rescale a r e h]
+  exact ⟨(rescale_cases a e).2.1, rescale_half_ulp a e⟩
+
+/-- the integer an exponent-0 decimal denotes -/
+theorem toInt_exp0 (d : Dec) (h : d.exp = 0) : ((toInt d : Int) : ℚ) = d.toRat := by
+  unfold toInt toRat
+  simp only [h, ge_iff_le, le_refl, if_true, Int.toNat_zero, pow_zero, mul_one, zpow_zero]
+  cases d.neg <;> simp [sgn]
+
+/-- **one-argument `round` in ℚ** (`int(x._rescale(0, half-even))`): the integer returned is within 1/2 of the argument -/
+theorem toIntRound_half (a : Dec) : |((toIntRound a .halfEven : Int) : ℚ) - a.toRat| ≤ 1 / 2 := by
+  unfold toIntRound
+  rw [toInt_exp0 _ (rescale_cases a 0).2.1]
+  simpa using (rescale_half_ulp a 0).1
 end Sq.Dec
